@@ -261,7 +261,7 @@ fn build<T: TxLike>(ctx: &mut Ctx, mk: &dyn Fn(Vec<Input>, Vec<Witness>) -> T, c
             1 => { let l = *ctx.rng.pick(&[0usize, 1, 63, 65, 128]); t.witnesses_mut()[j] = Witness::from(ctx.rng.bytes(l)); "witness-length" }
             2 => { let w = *ctx.rng.pick(&[nw as u16, nw as u16 + 1, u16::MAX, 255, 256]); set_widx(&mut t.inputs_mut()[i], w); "witness-index-out-of-bounds" }
             3 => { let a = Address::new(ctx.rng.arr32()); set_owner(&mut t.inputs_mut()[i], a); "owner-changed" }
-            4 => { let bad = Message::from_bytes(ctx.rng.arr32()); let sig = Signature::sign(&case.keys[case.wit_key[j]], &bad); t.witnesses_mut()[j] = Witness::from(sig.as_ref().to_vec()); "signature-over-other-message" }
+            4 => { let bad = Message::from_bytes(ctx.rng.arr32()); let sig = Signature::sign(&case.keys[case.wit_key[j % case.nwit]], &bad); t.witnesses_mut()[j] = Witness::from(sig.as_ref().to_vec()); "signature-over-other-message" }
             5 => { let mut w = t.witnesses()[j].as_ref().to_vec(); if !w.is_empty() { let p = ctx.rng.below(w.len() as u64) as usize; w[p] ^= 1 << ctx.rng.below(8); } t.witnesses_mut()[j] = Witness::from(w); "witness-bit-flip" }
             6 => { t.witnesses_mut().pop(); "witness-removed" }
             7 => { let w = ctx.rng.below(nw as u64) as u16; set_widx(&mut t.inputs_mut()[i], w); "witness-index-to-other-witness" }
@@ -274,6 +274,7 @@ fn build<T: TxLike>(ctx: &mut Ctx, mk: &dyn Fn(Vec<Input>, Vec<Witness>) -> T, c
 }
 
 pub fn run(ctx: &mut Ctx) {
+    if std::env::var("FV_DEBUG_PANIC").is_ok() { std::panic::set_hook(Box::new(|i| eprintln!("{i}"))); }
     let n = ctx.n(220, 3000);
     for c in 0..n {
         let chain = ChainId::new(match c % 4 { 0 => 0, 1 => 1, 2 => u64::MAX, _ => ctx.rng.word() });
